@@ -344,7 +344,7 @@ def real_steps(sc):
         else:
             ans = {"kind": "resp", "status": a["status"], "ctype": CTYPES[a["ctype"]], "body": st["_raw"],
                    "session": a.get("session"), "redirect": bool(a.get("redirect")),
-                   "te": a.get("te", "length"), "split": a.get("split", 0)}
+                   "te": a.get("te", "length"), "split": a.get("split", 0), "pace": a.get("pace", 0.0)}
         out.append({"req": st["_req"], "ans": ans})
     return out
 
@@ -625,7 +625,8 @@ def run_cases(ctx, scenarios, drv, sockets=False):
     materialise(scenarios, drv)
     if sockets:
         impl = R.run_socket_scenarios([(real_steps(sc), sc.get("init"),
-                                        0.3 if any(st["ans"].get("exc") == "read-timeout" for st in sc["steps"]) else 5.0)
+                                        0.3 if any(st["ans"].get("exc") == "read-timeout" for st in sc["steps"]) else
+                                        0.4 if any(st["ans"].get("pace") for st in sc["steps"]) else 5.0)
                                        for sc in scenarios])
     else:
         impl = R.run_scenarios([(real_steps(sc), sc.get("init")) for sc in scenarios])
@@ -759,6 +760,15 @@ def socket_scenarios(ctx, n):
                     a["session"] = f"sock-{sess_n}"
             steps.append({"req": rng.choice(REQ_KINDS + ["req-int", "req-str"]), "ans": a})
         out.append({"init": rng.choice((None, None, "init-1")), "steps": steps})
+    # an answer that TAKES LONGER than the configured timeout although no single pause comes near it (a long-running call
+    # streaming progress, a big body on a slow link): the timeout limits silence, not the length of an answer
+    for content, enc in (("notifs+response", "canonical"), ("notifs+response", "kitchen-sink"), ("response", "canonical")):
+        for te in ("chunked", "close"):
+            a = {"kind": "resp", "status": 200, "ctype": "sse", "body": {"framing": "sse", "content": content, "enc": enc},
+                 "te": te, "pace": 0.1}
+            out.append({"init": None, "steps": [{"req": "req-int", "ans": a}, {"req": "req-str", "ans": dict(a)}]})
+    a = {"kind": "resp", "status": 200, "ctype": "json", "body": {"framing": "json", "content": "notifs+response"}, "te": "chunked", "pace": 0.1}
+    out.append({"init": None, "steps": [{"req": "req-int", "ans": a}]})
     return out
 
 
